@@ -196,6 +196,29 @@ fn run_inner(harness: &str, vals: &[u8]) -> Result<Outcome, String> {
             detail: format!("reply {:?}", r.map(|r| r.to_string())),
         });
     }
+    if g(0) == 4 {
+        // a refused call must leave the client where it was: an out-of-order step is refused, then the step after it
+        // (still out of order) must be refused too, and the step that was due must still be admitted
+        let (cid, _) = advance(&mut s, 1)?;
+        let r3 = json!({"method": "org.varlink.certification.Test03", "parameters": {"client_id": cid, "int": 1}});
+        send(&mut s, &r3)?;
+        let a = recv(&mut s);
+        let r4 = json!({"method": "org.varlink.certification.Test04", "parameters": {"client_id": cid, "float": 1.0}});
+        send(&mut s, &r4)?;
+        let b = recv(&mut s);
+        let refused_first = a.as_ref().map(|r| r.get("error").is_some()).unwrap_or(false);
+        let admitted_second = b.as_ref().map(|r| r.get("error").is_none()).unwrap_or(false);
+        let r1 = json!({"method": "org.varlink.certification.Test01", "parameters": {"client_id": cid}});
+        send(&mut s, &r1)?;
+        let c = recv(&mut s);
+        let due_refused = c.as_ref().map(|r| r.get("error").is_some()).unwrap_or(true);
+        return Ok(Outcome {
+            reproduced: refused_first && (admitted_second || due_refused),
+            role: "refused-call-moves-the-client".into(),
+            scenario: format!("after Start: {} ; {} ; {}", r3, r4, r1),
+            detail: format!("replies {:?} ; {:?} ; {:?}", a.map(|r| r.to_string()), b.map(|r| r.to_string()), c.map(|r| r.to_string())),
+        });
+    }
     let idx = step_index(harness).ok_or("unknown step")?;
     if g(0) == 3 {
         // the step checks a wrong place in the sequence: the canonical run breaks at this step or at the next one
